@@ -165,6 +165,11 @@ func c01Gen(tier string, emit func(c01Case)) {
 		emit(c01Case{Routes: defs, Methods: reqM, Late: true})
 	})
 	permute(c01Pool, 2, withSets)
+	// HEAD requests against tables that mix HEAD-only and GET-only routes (a direct HEAD match beats the GET fallback)
+	permute(c01Pool, 2, func(pats []string) {
+		emit(c01Case{Routes: []refmodel.RouteDef{{Path: pats[0], Methods: []string{"GET"}}, {Path: pats[1], Methods: []string{"HEAD"}}}, Methods: []string{"HEAD", "GET"}})
+		emit(c01Case{Routes: []refmodel.RouteDef{{Path: pats[0], Methods: []string{"HEAD", "POST"}}, {Path: pats[1], Methods: []string{"GET"}}}, Methods: []string{"HEAD"}})
+	})
 	// StrictLastSlash: single routes and ordered pairs over the strict pool (and the pairs of the main pool, all-GET)
 	for _, p := range c01StrictPool {
 		emit(c01Case{Routes: []refmodel.RouteDef{{Path: p, Methods: []string{"GET", "POST"}}}, Methods: reqM, Strict: true})
@@ -324,7 +329,7 @@ func c01Requests(c c01Case, r *rux.Router, rec *hitRec, tb *refmodel.Table, note
 var c01Spec = fw.Spec[c01Case]{
 	ID:    "C01",
 	Level: "model_checking",
-	Rule: "complete product: ordered route tables of <=K distinct patterns from a 27-pattern pool (every index/tier shortcut has colliding members) x method sets x registration APIs (Add, AddRoute(NewRoute), AddNamed, NewNamedRoute.AttachTo, GET/POST/... helpers, options via WithOptions, the pattern split into a Group prefix and a route path) (+ StrictLastSlash tables: ordered pairs over an 11-pattern pool of routes that end in '/' or whose tail may be empty, and the pairs of the main pool, with every path also requested with a trailing slash) (+ every ordered pair again after the router's inspection API was used, and on a caching router with the second route registered only after a first round of all requests) x request methods x all 259 paths of <=3 segments over {a,b,a.b,axb,12,q.html}; " +
+	Rule: "complete product: ordered route tables of <=K distinct patterns from a 27-pattern pool (every index/tier shortcut has colliding members) x method sets x registration APIs (Add, AddRoute(NewRoute), AddNamed, NewNamedRoute.AttachTo, GET/POST/... helpers, options via WithOptions, the pattern split into a Group prefix and a route path) (+ HEAD requests against every ordered pair of a GET-only and a HEAD-only route) (+ StrictLastSlash tables: ordered pairs over an 11-pattern pool of routes that end in '/' or whose tail may be empty, and the pairs of the main pool, with every path also requested with a trailing slash) (+ every ordered pair again after the router's inspection API was used, and on a caching router with the second route registered only after a first round of all requests) x request methods x all 259 paths of <=3 segments over {a,b,a.b,axb,12,q.html}; " +
 		"each (table,method,path) is one evaluation: Router.Match and ServeHTTP on the real router vs refmodel.Resolve; non-trivial = at least two routes qualify or the winner is not the first registered route",
 	Assume: []string{
 		"patterns and paths are drawn from the stated alphabets; larger tables are covered only as far as the small-scope hypothesis goes",
